@@ -131,8 +131,23 @@ def analyse(prop, module, root, tier):
     ctx = Context(prop, root, tier)
     status = 0
     err = None
+    budget = int(os.environ.get('GILINT_TIME_BUDGET', '1500'))
+
+    def _over(signum, frame):
+        raise AnalysisError('analysis time budget of %d s exceeded (summaries of the changed code grew beyond what the engine handles)' % budget)
     try:
-        module.check(ctx)
+        import signal
+        old_h = signal.signal(signal.SIGALRM, _over)
+        signal.setitimer(signal.ITIMER_REAL, budget, 0.5)      # re-raised every 0.5 s until it propagates (broad handlers may swallow one)
+    except (ValueError, AttributeError, ImportError):
+        old_h = None
+    try:
+        try:
+            module.check(ctx)
+        finally:
+            if old_h is not None:
+                signal.setitimer(signal.ITIMER_REAL, 0)
+                signal.signal(signal.SIGALRM, old_h)
         for r in ctx.rules:
             if r.instances < r.floor and not r.failed:
                 raise AnalysisError('rule %s (%s) matched %d instance(s), floor is %d: the extractor '
